@@ -22,7 +22,7 @@ SETTINGS = [
     ('RWS_CONFIG_CORS_EXPOSE_HEADERS', 'e', 'cors-expose-headers', ('cors', 'expose_headers'), ''),
     ('RWS_CONFIG_CORS_MAX_AGE', 'g', 'cors-max-age', ('cors', 'max_age'), '86400'),
 ]
-VALB = [ord(c) for c in 'abcxyz0123456789.:/-']
+VALB = [ord(c) for c in 'abcxyz0123456789.:/-,=_*']
 
 
 def args_collect(ex, st, c):
@@ -148,7 +148,7 @@ def main():
     prog = chk.load()
     q = chk.tier == 'quick'
     chk.assumptions = ['the process environment is modelled as a store (std::env::var / set_var); std::fs::read_to_string returns the assembled rws.config.toml text or an error; std::env::args returns the assembled vector',
-                       'values are 1-2 (3) bytes from [a-c x-z 0-9 . : / -] (no quotes, brackets, blanks, #, = or commas, which the TOML subset reader treats specially)',
+                       'values are 1-3 (5) bytes from [a-c x-z 0-9 . : / - , = _ *] (no quotes, brackets, blanks or #, which the TOML subset reader treats specially)',
                        'TcpListener::bind and parsing of the numeric settings by their consumers are outside this check']
     cases = []
     spellings = ['bare', 'quoted', 'dquoted', 'array', 'comment']
@@ -161,7 +161,7 @@ def main():
                         fss = (spellings if (file_ and (not q or not cli)) else ['bare']) if file_ else ['bare']
                         for fs_ in fss:
                             if fs_ == 'array' and s[3][0] != 'cors': continue
-                            cases.append(dict(setting=si, other=oi, cli=cli, file=file_, env=envp, cli_spelling=cs, file_spelling=fs_, other_file=file_, config_present=True, vlen=2 if q else 3))
+                            cases.append(dict(setting=si, other=oi, cli=cli, file=file_, env=envp, cli_spelling=cs, file_spelling=fs_, other_file=file_, config_present=True, vlen=3 if q else 5))
         cases.append(dict(setting=si, other=oi, cli=True, file=False, env=True, cli_spelling='long', file_spelling='bare', other_file=False, config_present=False, vlen=1))
         # an empty value in a higher-priority source still wins (e.g. `allow_origins = []`, `-o=`); the lower source's value is 1 byte
         cases.append(dict(setting=si, other=oi, cli=True, file=False, env=True, cli_spelling='short', file_spelling='bare', other_file=False, config_present=True, vlen=0, lower_vlen=1))
